@@ -569,6 +569,34 @@ def _numpy_dtype(dt, f):
     f['kind'], f['nbytes'] = NUMPY_CODES[m.group(2)]
 
 
+READ_TOKENS = {
+    'numpy': r'np\.fromfile', 'numpymemmap': r'np\.memmap', 'python': r'struct\.unpack', 'darr': r'darr\.\w+\(',
+    'R': r'readBin', 'matlab': r'fread', 'scilab': r'mgeti?\(', 'julia': r'read!?\(', 'idl': r'read_binary',
+    'mathematica': r'BinaryReadList', 'maple': r'FileTools',
+}
+
+
+def check_binding(lang, code, varname):
+    """The statement that reads the file assigns to the requested variable (the ragged composers ask for `i` and `v`
+    and index those; the complex recombination statements refer to the same name)."""
+    tok = READ_TOKENS.get(lang.split('_')[0])
+    if tok is None or not isinstance(code, str):
+        return
+    got = set(re.findall(r'(?m)^[ \t]*([A-Za-z_]\w*)[ \t]*(?:=|<-|:=)(?!=)[^\n;]*?' + tok, strip_comments(code, lang.split('_')[0])
+                         if lang.split('_')[0] not in ('numpy', 'numpymemmap', 'python', 'darr') else code))
+    if lang == 'matlab':
+        got -= {'re', 'im'}          # the complex reader reads the two components separately and recombines them
+    if got and varname not in got:
+        raise BadProgram(f'the data is read into `{sorted(got)[0]}`, not into the requested variable `{varname}`')
+
+
+def _bound(lang, fn):
+    def wrapped(code, varname='a'):
+        check_binding(lang, code, varname)
+        return fn(code, varname)
+    return wrapped
+
+
 EXTRACTORS = {
     'numpy': facts_numpy, 'numpymemmap': facts_numpymemmap, 'python': facts_python, 'darr': facts_darr,
     'R': facts_r, 'matlab': facts_matlab, 'scilab': facts_scilab,
@@ -576,6 +604,9 @@ EXTRACTORS = {
     'julia': lambda c, v='a': facts_julia(c, v, 1),
     'idl': facts_idl, 'mathematica': facts_mathematica, 'maple': facts_maple,
 }
+
+
+EXTRACTORS = {k: _bound(k, v) for k, v in EXTRACTORS.items()}
 
 
 def expected_path(pathmode, dirparts=(), fname='arrayvalues.bin'):
